@@ -22,6 +22,9 @@ inductive Env
   /-- a fetch is answered: byte budget of the broker, the high watermark it reports, whether the deadline has passed
   when the batch has been read -/
   | fetch (budget : Nat) (hwm : Int) (expired : Bool)
+  /-- a fetch is answered while the log is still shorter: the partition is being written to, at this moment it holds
+  the first `m` batches / messages of `items` (appends only: what is stored is a prefix of what will be stored) -/
+  | fetchSnap (m : Nat) (budget : Nat) (hwm : Int) (expired : Bool)
   /-- a fetch is answered but the connection is lost after `n` bytes of the message set -/
   | lost (n : Nat) (hwm : Int) (expired : Bool)
   /-- the fetch is answered with a partition error (for OffsetOutOfRange: what readOffsets then reports) -/
@@ -41,6 +44,9 @@ def worldEvent (items : List Item) (s : RR) : Env → REv
   | .fetch b hwm e =>
     -- Conn.ReadBatchWith at conn.offset, ReadMessage until it fails, Close
     let r := Pull.readAll e s.connOff hwm (serve items s.connOff b)
+    .data r.1 r.2.1 r.2.2
+  | .fetchSnap m b hwm e =>
+    let r := Pull.readAll e s.connOff hwm (serve (items.take m) s.connOff b)
     .data r.1 r.2.1 r.2.2
   | .lost n hwm e =>
     .cutAfter (Pull.readAll e s.connOff hwm (truncate (allTokens (dropBefore s.connOff items)) n)).1
